@@ -22,7 +22,7 @@ if not cps or not tests:
     print("cannot parse RUN.md", cps, tests); sys.exit(2)
 demo_cmd = tests[0].strip()
 subprocess.run(["git", "-C", "/repo", "worktree", "remove", "--force", wt], capture_output=True)
-subprocess.check_call(["git", "-C", "/repo", "worktree", "add", "-q", wt, "HEAD"])
+subprocess.check_call(["git", "-C", "/repo", "worktree", "add", "-q", "--detach", wt, "HEAD"])
 v = dict(repo_head=subprocess.check_output(["git", "-C", "/repo", "rev-parse", "--short", "HEAD"], text=True).strip(), demo_cmd=demo_cmd)
 try:
     seen = set()
@@ -72,8 +72,25 @@ try:
                 ex.append(dict(cmd=c, result="pass" if not extra else "fail", wall_s=round(time.time() - t0), note=f"root package: failing set compared with clean tree ({len(base)} offline failures there)", tail="\n".join(extra)))
                 continue
             if "-timeout" not in c: c = c.replace("go1.26.8 test", "go1.26.8 test -timeout 90m")
-            t0 = time.time(); rc, out = sh(c, timeout=3 * 3600)
-            ex.append(dict(cmd=c, result="pass" if rc == 0 else "fail", wall_s=round(time.time() - t0), tail="" if rc == 0 else out[-1500:]))
+            t0 = time.time()
+            p_ = subprocess.run(c, shell=True, cwd=wt, env=env, capture_output=True, text=True, timeout=3 * 3600)
+            rc, full = p_.returncode, p_.stdout + p_.stderr
+            entry = dict(cmd=c, result="pass" if rc == 0 else "fail", wall_s=round(time.time() - t0), tail="" if rc == 0 else full[-1500:])
+            if rc != 0:
+                # some packages fail in this sandbox on a clean tree too (no daemon port, DNS, known_hosts):
+                # run the same command on a clean worktree and compare the sets of failing tests
+                fs = lambda o: sorted(set(re.sub(r" \(.*", "", l.strip()) for l in o.splitlines() if l.strip().startswith("--- FAIL") or l.startswith("FAIL\t")))
+                cwt = wt + "-clean"
+                subprocess.run(["git", "-C", "/repo", "worktree", "remove", "--force", cwt], capture_output=True)
+                subprocess.check_call(["git", "-C", "/repo", "worktree", "add", "-q", "--detach", cwt, "HEAD"])
+                q_ = subprocess.run(c, shell=True, cwd=cwt, env=env, capture_output=True, text=True, timeout=3 * 3600)
+                subprocess.run(["git", "-C", "/repo", "worktree", "remove", "--force", cwt], capture_output=True)
+                extra = [x for x in fs(full) if x not in fs(q_.stdout + q_.stderr)]
+                entry["note"] = "fails on a clean tree too; failing sets compared"
+                entry["extra_failures_vs_clean"] = extra
+                if not extra:
+                    entry["result"] = "pass"
+            ex.append(entry)
     v["existing_tests"] = ex
     if prop:
         t0 = time.time()
@@ -91,4 +108,6 @@ if ok:
         shutil.copy(os.path.join(src, fn), os.path.join(dst, fn))
     meta["coordinator_verification"] = v
     json.dump(meta, open(f"{dst}/meta.json", "w"), indent=1)
-print(json.dumps(v, indent=1)[:3500])
+for k in ("demo_with_out", "demo_without_out"):
+    v[k] = (v.get(k) or "")[-400:]
+print(json.dumps(v, indent=1))
